@@ -124,6 +124,7 @@ pub struct Recorder {
     pub current: Vec<String>,
     starts: BufWriter<File>,
     pub budget: u64,
+    pub impl_only: u64,
 }
 
 impl Recorder {
@@ -144,6 +145,7 @@ impl Recorder {
             current: vec![],
             starts: BufWriter::new(File::create(dir.join("starts.txt")).unwrap()),
             budget: 1,
+            impl_only: 0,
         }
     }
     /// record one op line and what the implementation answered
@@ -153,6 +155,14 @@ impl Recorder {
         writeln!(self.imp, "{}", out).unwrap();
         self.lines += 1;
         self.current.push(op.to_string());
+    }
+    /// execute an op on the implementation only (a configuration outside the Lean model): it is
+    /// kept in the replay (prefixed `!`) and counted, but not sent to the model
+    pub fn exec_impl_only(&mut self, w: &mut crate::interp::World, op: &str) -> String {
+        let out = w.exec(op);
+        self.current.push(format!("!{}", op));
+        self.impl_only += 1;
+        out
     }
     /// start of a fresh history (the op itself must reset the model state too)
     pub fn begin(&mut self) {
@@ -210,6 +220,7 @@ impl Recorder {
             "distinct_nontrivial": self.nontrivial,
             "exhaustive": self.exhaustive,
             "notes": self.notes,
+            "impl_only_ops": self.impl_only,
         });
         std::fs::write(self.dir.join("stats.json"), serde_json::to_string_pretty(&stats).unwrap()).unwrap();
     }
